@@ -12,4 +12,4 @@ CONSTANTS
 CONSTRAINT SizeBound
 VIEW absvars
 INVARIANTS TypeOK PackRoundTrip UnusedZero Laws
-PROPERTIES ObserversPure ViewSizeFixed FailedChangesNothing
+PROPERTIES ObserversPure ViewSizeFixed FailedChangesNothing MoveLaw SwapLaw SelfLaw
